@@ -151,6 +151,6 @@ Theorem C08_monitor_accepts_model : forall cfg pre r tab ref grp valid ids secre
   cfg_valid cfg = true ->
   sane cfg r e ids secrets kind csess = true ->
   (leak = true -> has_field (rs_body m) = true) ->
-  holds_req cfg r ids secrets kind csess (rs_status m) (rs_calls m) (rs_body m) leak = true.
+  holds_req cfg r ids secrets kind csess (rs_status m) (rs_calls m) (rs_body m) leak false = true.
 Proof. exact monitor_accepts_model. Qed.
 Print Assumptions C08_monitor_accepts_model.
